@@ -568,7 +568,7 @@ func (f *frame) runLoop(li *loopInfo, order []*ssa.BasicBlock) {
 	}
 	reachH := be.reach
 	// 4. assume invariants
-	var variant0 Term
+	var variant0, variant0b Term
 	if spec != nil {
 		env := f.loopEnv(li, hv, heap1)
 		for _, inv := range spec.Invariants {
@@ -579,7 +579,13 @@ func (f *frame) runLoop(li *loopInfo, order []*ssa.BasicBlock) {
 			c.assumed[fmt.Sprintf("assumed at the head of loop %d of %s (not proved): %s", li.ordinal, shortFn(f.fn), as.Text)] = true
 		}
 		if spec.Decreases != nil {
-			variant0 = c.name("variant", f.evalSpec(env, spec.Decreases.E).T)
+			if lx, ok := spec.Decreases.E.(*ECall); ok && lx.Fun == "lex" && len(lx.Args) == 2 {
+				// lexicographic variant lex(a, b)
+				variant0 = c.name("variant", f.evalSpec(env, lx.Args[0]).T)
+				variant0b = c.name("variantb", f.evalSpec(env, lx.Args[1]).T)
+			} else {
+				variant0 = c.name("variant", f.evalSpec(env, spec.Decreases.E).T)
+			}
 		}
 	}
 	// automatically derived bounds of canonical induction variables (range loops)
@@ -625,8 +631,15 @@ func (f *frame) runLoop(li *loopInfo, order []*ssa.BasicBlock) {
 			f.obligeClause("invariant-step", fmt.Sprintf("%s.inv%d@back%d", lname, j+1, k.from.Index), env, inv, es.cond, f.pos(lastPos(k.from)), false)
 		}
 		if spec.Decreases != nil {
-			v1 := f.evalSpec(env, spec.Decreases.E).T
-			c.oblige("decreases", fmt.Sprintf("%s.decreases@back%d", lname, k.from.Index), es.cond, and(ge(variant0, tZero), lt(v1, variant0)), f.pos(lastPos(k.from)), spec.Decreases.Text)
+			if lx, ok := spec.Decreases.E.(*ECall); ok && lx.Fun == "lex" && len(lx.Args) == 2 {
+				a1 := f.evalSpec(env, lx.Args[0]).T
+				b1 := f.evalSpec(env, lx.Args[1]).T
+				goal := and(ge(variant0, tZero), ge(variant0b, tZero), or(lt(a1, variant0), and(eq(a1, variant0), lt(b1, variant0b))))
+				c.oblige("decreases", fmt.Sprintf("%s.decreases@back%d", lname, k.from.Index), es.cond, goal, f.pos(lastPos(k.from)), spec.Decreases.Text)
+			} else {
+				v1 := f.evalSpec(env, spec.Decreases.E).T
+				c.oblige("decreases", fmt.Sprintf("%s.decreases@back%d", lname, k.from.Index), es.cond, and(ge(variant0, tZero), lt(v1, variant0)), f.pos(lastPos(k.from)), spec.Decreases.Text)
+			}
 		}
 		// the back edge is consumed
 		es.cond = tFalse
